@@ -47,6 +47,9 @@ CLAIMS = {
  "C14": dict(cat="exploration", tech="rapid generation of (schema family x chart tree x values through files and --set x operation sequence); reference schema evaluator over reference-coalesced values; request log and storage snapshot for the no-effect clause",
    text="Generated schemas on any chart of a three-level tree, values arriving from defaults, parent sections, -f files and --set; template, server dry-run, install, upgrade and lint must reject exactly when the reference evaluator finds a violating enabled chart, naming it and leaving cluster and store untouched; skip-schema-validation is the only way through.",
    note="Reference evaluator covers exactly the generated schema family; lint judged for the root chart only."),
+ "C15": dict(cat="exploration", tech="rapid generation of chart intents (metadata, raw values, schema, locks, nested/unicode/binary/BOM files, subcharts as directories and archives, v1 and v2) and of .helmignore rule sets; round-trip oracles Load(Save(c)) / LoadDir(SaveDir(c)) / archive vs directory, the harness's own tar and tree readers, an independent ignore matcher written from the documented syntax",
+   text="Generated charts must survive archive and directory round trips field by field and byte by byte (checked also on the written bytes with the harness's own readers), saving must not modify the chart, packaged archives must contain exactly the files an independent .helmignore matcher keeps, and invalid names/versions must not be packaged nor leave output behind.",
+   note="File names with backslash or colon, symlinks, empty directories and .helmignore syntax outside the documented set are not generated; three genuine defects (BOM stripping on load, YAML writer refusing control characters, U+0085 folding) are listed as known findings."),
  "C16": dict(cat="exploration", tech="rapid generation of tar+gzip streams from a raw header encoder (hostile names, type flags, link entries, size lies, mutations) x destination layouts with planted symlinks; before/after snapshot of a sandbox with canaries as oracle; lazily generated endless streams with a byte counter for the size limits; native coverage-guided fuzzing of the same oracle in the thorough tier",
    text="Adversarial archives through LoadArchive(Files), Expand(File), the plugin extractor/installer and helm pull --untar against pre-planted destinations: nothing outside the destination may change (even when the call fails) and every exposed file name must be a clean relative path; over-limit archives are rejected without reading past the limit; dependency update must not write the lock file through a planted symlink.",
    note="Reads through links are not observable by a snapshot; Windows path semantics, hard-link plants and TOCTOU races not covered; the committed fuzz seed corpus is replayed in the quick tier, native fuzzing runs only in the thorough tier."),
